@@ -41,10 +41,16 @@ const (
 )
 
 func baseCases(tier string) int { return vlib.TierN(tier, baseQuick, baseThorough) }
-func allCases(tier string) int  { return baseCases(tier) + vlib.TierN(tier, mixQuick, mixThorough) }
+func mixCases(tier string) int  { return vlib.TierN(tier, mixQuick, mixThorough) }
+func allCases(tier string) int {
+	return baseCases(tier) + mixCases(tier) + vlib.TierN(tier, undecQuick, undecThorough)
+}
 
 // dispatch runs the class a case index belongs to.
 func dispatch(e *vlib.Env) vlib.Result {
+	if e.Idx >= baseCases(e.Tier)+mixCases(e.Tier) {
+		return runUndec(e) // third class: undec.go
+	}
 	if e.Idx >= baseCases(e.Tier) {
 		return runMix(e)
 	}
